@@ -7,6 +7,11 @@ NOTES = ("All checks: ./check <ID> quick|thorough; exit 0 held / 1 VIOLATION / 2
          "every run. known_findings.json lists open findings and fixed: records; replays/<ID>/ holds committed regression cases.")
 NOT_APPLICABLE = {}
 CHECKS = {
+    "C19": {
+        "technique": "dictionary-seeded property-based testing / fuzzing of the three code generators: Hypothesis draws field ids, class / stub names, mapped keys and defaults from hostile dictionaries (internal identifiers, builtins, metacharacters, code fragments calling a canary) plus st.text; oracle = generation succeeds, layout behaviour, canary never hit, stub signature preserved",
+        "text": "Exploration of model loader, model dumper, get_converter and impl_converter generation over hostile names and keys; any evaluation of injected text is observed through a canary module.",
+        "note": "Trusted: the canary (vkit_canary) and the flat layout reference; open known finding C19-nfkc-typeddict-key is excluded by construction for ~97% of the budget and still probed.",
+    },
     "C08": {
         "technique": "property-based testing with instrumented generated models: constructors of generated dataclass / attrs / plain / NamedTuple / pydantic models log their call; defaults and factories come from a look-alike dictionary; the call log is bound to the signature and the result compared type-exactly with direct construction",
         "text": "Exploration: one constructor call per load, present values bound by identity to their own parameters, absent fields hold the true default (exact type) or a fresh factory result, hooks ran.",
